@@ -347,7 +347,7 @@ static string checkHttp(const string& uri, bool log) {
 }
 static const char* SEGS[] = {"", ".", "..", "%2e", "%2E%2e", ".%2e", "%252e%252e", "%2f", "..%2f", "%25", "%", "%4", "%zz", "a", "x.js", "index.html"};
 static const size_t NSEGS = sizeof(SEGS) / sizeof(SEGS[0]);
-static const char* QUERIES[] = {"", "?q=%41%2e&r=%2541"};
+static const char* QUERIES[] = {"", "?q=%41%2e&r=%2541", "?x?y=%3f&z"};
 
 // the arguments an HTTP request line encodes (nullptr semantics: empty vector = not judged, malformed escape)
 static vector<string> httpWant(const string& uri) {
@@ -435,6 +435,45 @@ static string checkTopic(const Tmpl& t, const string& c, const string& n, const 
   return "";
 }
 
+// ---- several requests through ONE RequestImpl (one per connection in Connection::run) --------------------------
+struct Rq { const char* line; vector<string> want; };
+static const vector<Rq> TCPSET = {
+  {"read -f -c c m0", {"read", "-f", "-c", "c", "m0"}}, {"find", {"find"}}, {"write -c c w \"a  b\"", {"write", "-c", "c", "w", "a  b"}},
+  {"auth u ''", {"auth", "u", ""}}, {"x", {"x"}}, {"read 'q r'", {"read", "q r"}}, {"a  b", {"a", "b"}},
+};
+static const vector<Rq> HTTPSET = {
+  {"/data/c/m0?exact=1", {"GET", "/data/c/m0", "exact=1"}}, {"/", {"GET", "/"}}, {"/a%2ejs?x?y", {"GET", "/a.js", "x?y"}}, {"/index.html", {"GET", "/index.html"}},
+};
+static string runSequence(bool http, const vector<size_t>& seq, bool crlf, bool cut, string* trace, size_t* failedAt, bool log) {
+  const vector<Rq>& S = http ? HTTPSET : TCPSET;
+  const char* eol = crlf ? "\r\n" : "\n";
+  RequestImpl req(http);
+  for (size_t k = 0; k < seq.size(); k++) {
+    if (seq[k] >= S.size()) return "bad-case";
+    const Rq& rq = S[seq[k]];
+    string stream = http ? "GET " + string(rq.line) + " HTTP/1.1" + eol + "Host: x" + eol + eol : string(rq.line) + eol;
+    vector<string> pcs = cut ? cutStream(stream, {stream.size() - 1}) : vector<string>{stream};
+    bool done = false;
+    for (size_t i = 0; i < pcs.size(); i++) { R.transitions++; done = req.add(pcs[i].c_str()); if (done && i + 1 != pcs.size()) break; }
+    vector<string> got;
+    if (done) req.split(&got);
+    if (log) printf("request %zu       <%s> in %zu piece(s): %s%s, client encoded %s\n", k + 1, esc(stream).c_str(), pcs.size(), done ? "" : "NOT COMPLETE ",
+                    showVec(got).c_str(), showVec(rq.want).c_str());
+    string rule = !done ? "request-incomplete" : got != rq.want ? "argument-changed" : "";
+    if (!rule.empty()) {
+      *trace = "request " + std::to_string(k + 1) + " <" + esc(rq.line) + "> parsed to " + showVec(got) + ", client encoded " + showVec(rq.want);
+      *failedAt = k;
+      return rule;
+    }
+    // the response is set by the main loop and fetched by the connection thread
+    RequestMode mode = req.getMode();
+    req.setResult("done", "", &mode, 0, false);
+    string res;
+    req.waitResponse(&res);
+  }
+  return "";
+}
+
 // ================================ replay / main ===================================================
 static int replay(const string& cs) {
   auto m = vp::parseCase(cs);
@@ -444,6 +483,14 @@ static int replay(const string& cs) {
     size_t n = strtoul(m["n"].c_str(), nullptr, 10);
     for (size_t i = 0; i < n; i++) args.push_back(fromHex(m["a" + std::to_string(i)]));
     rule = checkSplit(args, fromHex(m["wire"]), true);
+  } else if (k == "seq") {
+    vector<size_t> seq;
+    std::istringstream ss(m["seq"]);
+    string tok;
+    while (getline(ss, tok, ',')) seq.push_back(strtoul(tok.c_str(), nullptr, 10));
+    string trace;
+    size_t at = 0;
+    rule = runSequence(m["h"] == "1", seq, m["crlf"] == "1", m["cut"] == "1", &trace, &at, true);
   } else if (k == "dlv") {
     vector<string> want;
     size_t n = strtoul(m["n"].c_str(), nullptr, 10);
@@ -519,6 +566,38 @@ int main(int argc, char** argv) {
       for (size_t s = 0; s < NSEGS; s++) { segs.push_back(s); rec(); segs.pop_back(); }
     };
     rec();
+    // URIs that do not start with a slash (and ones starting with an encoded slash or a name fragment): the file
+    // name must not be formed by gluing them to the root path (siblings html-old/, htmlx.js, ... hold OUT markers)
+    {
+      static const char* PREFIXES[] = {"", "-old/", ".old/", "x", ".", "%2f", "a/", "index"};
+      size_t maxSeg2 = th ? 4 : 3;
+      vector<size_t> sg;
+      std::function<void()> rec2 = [&]() {
+        if (R.expired()) return;
+        if (!sg.empty() && (idx++ % A.nparts) == static_cast<uint64_t>(A.part)) {
+          string tail;
+          for (size_t i = 0; i < sg.size(); i++) tail += (i ? "/" : "") + string(SEGS[sg[i]]);
+          for (const char* pre : PREFIXES) {
+            string uri = string(pre) + tail;
+            if (uri.empty() || uri[0] == '/') continue;
+            R.distinct("n|" + uri);
+            for (const char* q : QUERIES) httpCase(uri + q, "seg");
+          }
+        }
+        if (sg.size() >= maxSeg2) return;
+        for (size_t x = 0; x < NSEGS; x++) { sg.push_back(x); rec2(); sg.pop_back(); }
+      };
+      rec2();
+    }
+    // raw URIs with the query characters: '?', '&', '=' literal and as escapes (%3f %26 %3d need 3,6,d)
+    {
+      vector<string> raws2 = stringsOver("/a?&=%3f", th ? 6 : 5, false);
+      for (size_t i = 0; i < raws2.size() && !R.expired(); i++) {
+        if (static_cast<int>(i % A.nparts) != A.part) continue;
+        if (!R.distinct("r|" + raws2[i])) continue;
+        httpCase(raws2[i], "raw");
+      }
+    }
     size_t maxRaw = th ? 7 : 6;
     vector<string> raws = stringsOver("%25ef/.a", maxRaw, false);
     for (size_t i = 0; i < raws.size() && !R.expired(); i++) {
@@ -599,6 +678,37 @@ int main(int argc, char** argv) {
           string stream2 = "GET " + uri2 + " HTTP/1.1" + eol + hdr + eol + eol;
           deliveryCase(true, stream2, bufferCuts(stream2.size(), 255), {"GET", "/x", "q=1"}, en, "buf255");
         }
+      }
+    }
+    // one RequestImpl per CONNECTION: Connection::run keeps the object, fetches the response with waitResponse
+    // and goes on adding the next request.  Every ordered sequence of 2 (thorough 3) requests from a small set,
+    // LF / CRLF, whole and cut between CR and LF: request k must parse to its own arguments.
+    {
+      size_t depth = th ? 3 : 2;
+      for (int http = 0; http < 2; http++) {
+        size_t nset = (http ? HTTPSET : TCPSET).size();
+        vector<size_t> seq;
+        std::function<void()> rec3 = [&]() {
+          if (R.expired()) return;
+          if (seq.size() >= 2 && (idx++ % A.nparts) == static_cast<uint64_t>(A.part)) {
+            string key;
+            for (size_t k = 0; k < seq.size(); k++) key += (k ? "," : "") + std::to_string(seq[k]);
+            R.distinct(string("seq|") + (http ? "h" : "t") + key);
+            for (int crlf = 0; crlf < 2; crlf++) for (int cut = 0; cut <= crlf; cut++) {
+              R.evaluations++; R.tracesValidated++;
+              string trace;
+              size_t failedAt = 0;
+              string rule = runSequence(http != 0, seq, crlf != 0, cut != 0, &trace, &failedAt, false);
+              if (!rule.empty()) {
+                R.violation(string("C18/connection/") + rule + "/" + (http ? "http" : "tcp") + "/request-" + (failedAt >= 2 ? "3" : "2"),
+                            trace + " (one RequestImpl for the whole connection)", string("k=seq;h=") + (http ? "1" : "0") + ";seq=" + key + ";crlf=" + std::to_string(crlf) + ";cut=" + std::to_string(cut));
+              }
+            }
+          }
+          if (seq.size() >= depth) return;
+          for (size_t x = 0; x < nset; x++) { seq.push_back(x); rec3(); seq.pop_back(); }
+        };
+        rec3();
       }
     }
     R.sample("d: <read -c \"a b\"\\r\\n> handed to add() as <read -c \"a b\"\\r> + <\\n>, byte by byte, in every cut into <=3 pieces and in 255 byte pieces must give [read,-c,a b] with the last piece");
